@@ -208,7 +208,9 @@ PdWalk(k, cur, docs) ==
       [] kind[k] \in IvarKinds -> PdWalk(k + 1, <<>>, docs)
       \* a definition is a NEW object under that name: what documented the previous holder stays with the superseded object
       [] Pushes(k) -> PdWalk(k + 1, <<>>, IF kind[k] = "setter" THEN docs ELSE Drop(docs, <<Scope(k), nm[k]>>))
-      [] kind[k] = "prop" -> PdWalk(k + 1, <<Scope(k), nm[k]>>, Drop(docs, <<Scope(k), nm[k]>>))   \* _handlePropertyDef -> addAttribute
+      \* _handlePropertyDef -> addAttribute, then currentAttr is cleared: a property is not the target of an assignment, a string
+      \* that follows its definition documents nothing (it did, before the repair 571b126)
+      [] kind[k] = "prop" -> PdWalk(k + 1, <<>>, Drop(docs, <<Scope(k), nm[k]>>))
       [] kind[k] = "assign" -> PdWalk(k + 1, IF SetsAttr(k) THEN <<Scope(k), nm[k]>> ELSE c0, docs)
       [] kind[k] = "docstr" -> IF c0 = <<>> THEN PdWalk(k + 1, c0, docs)
                                ELSE PdWalk(k + 1, <<>>, [d \in DOMAIN docs \cup {c0} |-> IF d = c0 THEN k ELSE docs[d]])
